@@ -87,7 +87,7 @@ Lemma m_body_fwd b k ln : gbody_shape b = true -> gbody_in b = true ->
 Proof.
   unfold gbody_shape, len_is, gbody_in. intros Hs Hin Hok. rewrite !gnums_ok_cons in Hok. bsplit. norm_toks.
   apply Z.eqb_eq in Hs.
-  pose proof (gnum_ok_nonneg _ _ ltac:(eassumption) : 0 <= nval (gb_neg b)) as Hn0.
+  assert (Hn0 : 0 <= nval (gb_neg b)) by (eapply gnum_ok_nonneg; eassumption).
   rewrite d_gbody_eq by assumption. unfold m_body.
   eapply yields_bind. { apply m_pos_fwd; [apply umax_le | assumption | rng]. }
   intros ln1. cbv beta iota.
@@ -108,8 +108,8 @@ Lemma m_sum_c_fwd b bnd k ln : gbody_shape b = true -> gbody_in b = true -> gwei
 Proof.
   unfold gbody_shape, len_is, gbody_in. intros Hs Hin Hw Hok. rewrite !gnums_ok_cons in Hok. bsplit. norm_toks.
   apply Z.eqb_eq in Hs.
-  pose proof (gnum_ok_nonneg _ _ ltac:(eassumption) : 0 <= nval (gb_neg b)) as Hn0.
-  pose proof (gnum_ok_nonneg _ _ ltac:(eassumption) : 0 <= nval bnd) as Hb0.
+  assert (Hn0 : 0 <= nval (gb_neg b)) by (eapply gnum_ok_nonneg; eassumption).
+  assert (Hb0 : 0 <= nval bnd) by (eapply gnum_ok_nonneg; eassumption).
   rewrite d_gbody_eq by assumption. unfold m_sum.
   eapply yields_bind. { apply m_pos_fwd; [apply umax_le | assumption | rng]. }
   intros ln1. cbv beta iota.
@@ -118,7 +118,7 @@ Proof.
   eapply yields_bind. { apply m_pos_fwd; [apply umax_le | assumption | rng]. }
   intros ln3. cbv beta iota.
   rewrite neg_check_sum_eq. cbn [negb orb].
-  replace (nval bnd <=? sm_bound_max) with true by rng.
+  assert (Hbm : (nval bnd <=? sm_bound_max) = true) by (apply Z.leb_le; rng). rewrite Hbm.
   replace (nval (gb_neg b) <=? nval (gb_len b)) with true by lia. cbn [m_require bind].
   rewrite Hs.
   eapply yields_bind. { apply atoms_fwd; [apply fuel_tok; assumption | assumption | assumption]. }
@@ -133,8 +133,8 @@ Lemma m_sum_w_fwd b bnd wts k ln : gbody_shape b = true -> len_is (gb_len b) wts
 Proof.
   unfold gbody_shape, len_is, gbody_in. intros Hs Hlw Hin Hw Hws Hok. rewrite !gnums_ok_cons, gnums_ok_app in Hok. bsplit. norm_toks.
   apply Z.eqb_eq in Hs. apply Z.eqb_eq in Hlw.
-  pose proof (gnum_ok_nonneg _ _ ltac:(eassumption) : 0 <= nval (gb_neg b)) as Hn0.
-  pose proof (gnum_ok_nonneg _ _ ltac:(eassumption) : 0 <= nval bnd) as Hb0.
+  assert (Hn0 : 0 <= nval (gb_neg b)) by (eapply gnum_ok_nonneg; eassumption).
+  assert (Hb0 : 0 <= nval bnd) by (eapply gnum_ok_nonneg; eassumption).
   rewrite d_gbody_eq by assumption. unfold m_sum.
   eapply yields_bind. { apply m_pos_fwd; [apply umax_le | assumption | rng]. }
   intros ln1. cbv beta iota.
@@ -143,7 +143,7 @@ Proof.
   eapply yields_bind. { apply m_pos_fwd; [apply umax_le | assumption | rng]. }
   intros ln3. cbv beta iota.
   rewrite neg_check_sum_eq. cbn [negb orb].
-  replace (nval bnd <=? sm_bound_max) with true by rng.
+  assert (Hbm : (nval bnd <=? sm_bound_max) = true) by (apply Z.leb_le; rng). rewrite Hbm.
   replace (nval (gb_neg b) <=? nval (gb_len b)) with true by lia. cbn [m_require bind].
   rewrite Hs.
   eapply yields_bind. { apply atoms_fwd; [apply fuel_tok; assumption | assumption | assumption]. }
@@ -151,4 +151,157 @@ Proof.
   rewrite <- Hs, Hlw.
   eapply yields_bind. { apply weights_fwd; [apply fuel_tok; assumption | assumption | assumption]. }
   intros ln5. cbv beta iota. rewrite wrap32s_id by rng. apply yields_ret.
+Qed.
+
+(* ---------------- one rule ---------------- *)
+Lemma rule_toks_cons r : exists t l, rule_toks r = t :: l.
+Proof. destruct r; cbn [rule_toks]; eauto. Qed.
+
+Lemma rule_type_val r t l : grule_shape r = true -> rule_toks r = t :: l -> 1 <= nval t <= 92.
+Proof.
+  intros Hs Et. destruct r; cbn [rule_toks grule_shape] in *; injection Et as <- <-; bsplit;
+    unfold Sm_Basic, Sm_Choice, Sm_Disjunctive, Sm_Cardinality, Sm_Weight, Sm_Optimize,
+           Sm_ClaspIncrement, Sm_ClaspAssignExt, Sm_ClaspReleaseExt in *; lia.
+Qed.
+
+Ltac type_eq t0 :=
+  match goal with H : (nval t0 =? _) = true |- _ => apply Z.eqb_eq in H; rewrite H; clear H end.
+
+Lemma read_rule_fwd (o : opts) prio r t l k ln : grule_shape r = true -> grule_in (claspExt o) r = true ->
+  rule_toks r = t :: l -> gnums_ok l k = true ->
+  yields (read_rule o prio (nval t) (amk (r_gnums l ++ k) ln)) (d_grule prio r) k.
+Proof.
+  intros Hs Hin Et Hok.
+  destruct r as [t0 h b|t0 n hs b|t0 h b bnd|t0 h bnd b wts|t0 bnd b wts|t0 z|t0 a v|t0 a];
+    cbn [rule_toks grule_shape grule_in d_grule] in *; injection Et as <- <-.
+  - (* basic *)
+    bsplit. type_eq t0. unfold read_rule. rt_reduce.
+    rewrite gnums_ok_cons in Hok. bsplit. rewrite r_gnums_cons, <- app_assoc.
+    eapply yields_bind. { apply m_atom_fwd; assumption. }
+    intros ln1. cbv beta iota.
+    eapply yields_bind. { apply m_body_fwd; assumption. }
+    intros ln2. cbv beta iota. apply yields_ret.
+  - (* choice / disjunctive *)
+    bsplit. unfold len_is in *.
+    match goal with H : (nval n =? _) = true |- _ => apply Z.eqb_eq in H; rename H into Hn end.
+    rewrite gnums_ok_cons, gnums_ok_app in Hok. bsplit. rewrite r_gnums_cons. rewrite ?r_gnums_app, <- ?app_assoc in *.
+    assert (E : read_rule o prio (nval t0) = fun s =>
+      '(n, s1) <- m_atom s ;; '(hs, s2) <- m_many m_atom (fuel_of s1) n s1 ;; '(b, s3) <- m_body s2 ;;
+      Ok ([CRule (if nval t0 =? Sm_Choice then Head_t_Choice else Head_t_Disjunctive) hs b], prio, s3)).
+    { match goal with H : (_ || _) = true |- _ => apply orb_prop in H; destruct H as [H|H]; apply Z.eqb_eq in H; rewrite H end; reflexivity. }
+    rewrite E. clear E.
+    eapply yields_bind. { apply m_atom_fwd; assumption. }
+    intros ln1. cbv beta iota. rewrite Hn.
+    eapply yields_bind. { apply atoms_fwd; [apply fuel_tok; assumption | assumption | assumption]. }
+    intros ln2. cbv beta iota.
+    eapply yields_bind. { apply m_body_fwd; assumption. }
+    intros ln3. cbv beta iota. apply yields_ret.
+  - (* cardinality *)
+    bsplit. type_eq t0. unfold read_rule. rt_reduce.
+    rewrite gnums_ok_cons in Hok. bsplit. rewrite r_gnums_cons, <- app_assoc.
+    eapply yields_bind. { apply m_atom_fwd; assumption. }
+    intros ln1. cbv beta iota.
+    eapply yields_bind. { apply m_sum_c_fwd; assumption. }
+    intros ln2. cbv beta iota. apply yields_ret.
+  - (* weight *)
+    bsplit. type_eq t0. unfold read_rule. rt_reduce.
+    rewrite gnums_ok_cons in Hok. bsplit. rewrite r_gnums_cons, <- app_assoc.
+    eapply yields_bind. { apply m_atom_fwd; assumption. }
+    intros ln1. cbv beta iota.
+    eapply yields_bind. { apply m_sum_w_fwd; assumption. }
+    intros ln2. cbv beta iota. apply yields_ret.
+  - (* optimize *)
+    bsplit. type_eq t0. unfold read_rule. rt_reduce.
+    eapply yields_bind. { apply m_sum_w_fwd; assumption. }
+    intros ln2. cbv beta iota. apply yields_ret.
+  - (* 90 *)
+    bsplit. type_eq t0. unfold read_rule. rt_reduce.
+    match goal with H : claspExt o = true |- _ => rewrite H end.
+    rewrite gnums_ok_cons in Hok. bsplit. norm_toks.
+    eapply yields_bind. { apply m_pos_fwd; [apply umax_le | assumption | rng]. }
+    intros ln1. cbv beta iota.
+    match goal with H : (nval z =? 0) = true |- _ => rewrite H end. cbn [m_require bind]. apply yields_ret.
+  - (* 91 *)
+    bsplit. type_eq t0. unfold read_rule. rt_reduce.
+    match goal with H : claspExt o = true |- _ => rewrite H end.
+    rewrite !gnums_ok_cons in Hok. bsplit. norm_toks.
+    eapply yields_bind. { apply m_atom_fwd; assumption. }
+    intros ln1. cbv beta iota.
+    assert (Hv0 : 0 <= nval v) by (eapply gnum_ok_nonneg; eassumption).
+    eapply yields_bind. { apply (m_pos_fwd sm_extval_max); [unfold sm_extval_max, INT64_MAX; lia | assumption | unfold sm_extval_max; lia]. }
+    intros ln2. cbv beta iota.
+    assert (Ev : Z.lxor (nval v) sm_extval_xor - sm_extval_sub = d_extval (nval v)).
+    { assert (Hc : nval v = 0 \/ nval v = 1 \/ nval v = 2) by lia.
+      destruct Hc as [-> | [-> | ->]]; reflexivity. }
+    rewrite Ev. apply yields_ret.
+  - (* 92 *)
+    bsplit. type_eq t0. unfold read_rule. rt_reduce.
+    match goal with H : claspExt o = true |- _ => rewrite H end.
+    rewrite gnums_ok_cons in Hok. bsplit. norm_toks.
+    eapply yields_bind. { apply m_atom_fwd; assumption. }
+    intros ln1. cbv beta iota. apply yields_ret.
+Qed.
+
+(* ---------------- the rule section ---------------- *)
+Lemma toks_nonempty rules rend : exists t0 l, flat_map rule_toks rules ++ [rend] = t0 :: l.
+Proof.
+  destruct rules as [|r rules]; [cbn; eauto|]. destruct (rule_toks_cons r) as (t & l & E).
+  cbn [flat_map]. rewrite E, <- app_assoc. cbn [app]. eauto.
+Qed.
+
+Lemma len_rule_toks rules : (length rules <= length (flat_map rule_toks rules))%nat.
+Proof.
+  induction rules as [|r rules IH]; [cbn; lia|]. destruct (rule_toks_cons r) as (t & l & E).
+  cbn [flat_map length]. rewrite app_length, E. cbn [length]. lia.
+Qed.
+
+(* general in the fuel and in the FIRST token (parse_steps continues behind the whitespace of the next step's first token):
+   t0' stands where the first token t0 of the section is expected and denotes the same number *)
+Lemma read_rules_fwd_hd (o : opts) : forall (rules : list grule) (rend : gnum) (prio : Z) (k : list Z) (ln : Z) (fuel : nat) t0 l t0',
+  (length rules < fuel)%nat -> flat_map rule_toks rules ++ [rend] = t0 :: l -> nval t0' = nval t0 ->
+  gnums_ok (t0' :: l) k = true -> forallb grule_shape rules = true -> nval rend = 0 ->
+  forallb (grule_in (claspExt o)) rules = true ->
+  exists ln', read_rules fuel o prio (amk (r_gnums (t0' :: l) ++ k) ln) = (d_grules prio rules, Ok (amk k ln')).
+Proof.
+  induction rules as [|r rules IH]; intros rend prio k ln fuel t0 l t0' Hfu E Hv Hok Hsh Hend Hin;
+    (destruct fuel as [|fu]; [cbn in Hfu; lia|]).
+  - cbn [flat_map app] in E. injection E as <- <-. cbn [d_grules read_rules].
+    rewrite gnums_ok_cons in Hok. bsplit. norm_toks.
+    destruct (m_pos_fwd sm_rt_max t0' k ln ltac:(unfold sm_rt_max, INT64_MAX; lia) ltac:(assumption) ltac:(unfold sm_rt_max; lia)) as [ln1 E1].
+    rewrite E1, Hv, Hend. change (0 =? 0) with true. cbv iota. exists ln1. reflexivity.
+  - destruct (rule_toks_cons r) as (t & lr & Er). cbn [flat_map] in E. rewrite Er, <- app_assoc in E. cbn [app] in E.
+    injection E as <- <-. cbn [forallb] in Hsh, Hin. bsplit.
+    destruct (toks_nonempty rules rend) as (t1 & l1 & E1). rewrite E1 in *.
+    rewrite gnums_ok_cons, gnums_ok_app in Hok. bsplit.
+    pose proof (rule_type_val r t lr ltac:(assumption) Er) as Hty.
+    cbn [d_grules read_rules]. rewrite r_gnums_cons. rewrite ?r_gnums_app, <- ?app_assoc in *.
+    destruct (m_pos_fwd sm_rt_max t0' (r_gnums lr ++ r_gnums (t1 :: l1) ++ k) ln
+                ltac:(unfold sm_rt_max, INT64_MAX; lia) ltac:(assumption) ltac:(unfold sm_rt_max; lia)) as [ln1 E2].
+    rewrite E2. destruct (Z.eqb_spec (nval t0') 0) as [E0|_]; [lia|]. rewrite Hv.
+    destruct (read_rule_fwd o prio r t lr (r_gnums (t1 :: l1) ++ k) ln1 ltac:(assumption) ltac:(assumption) Er ltac:(assumption)) as [ln2 E3].
+    rewrite E3. destruct (d_grule prio r) as [cs prio'] eqn:Ed. cbn [fst snd].
+    destruct (IH rend prio' k ln2 fu t1 l1 t1 ltac:(cbn in Hfu; lia) E1 eq_refl ltac:(assumption) ltac:(assumption) Hend ltac:(assumption)) as [ln3 E4].
+    rewrite E4. exists ln3. reflexivity.
+Qed.
+
+Lemma read_rules_fwd_gen (o : opts) : forall (rules : list grule) (rend : gnum) (prio : Z) (k : list Z) (ln : Z) (fuel : nat),
+  (length rules < fuel)%nat ->
+  gnums_ok (flat_map rule_toks rules ++ [rend]) k = true -> forallb grule_shape rules = true -> nval rend = 0 ->
+  forallb (grule_in (claspExt o)) rules = true ->
+  exists ln', read_rules fuel o prio (amk (r_gnums (flat_map rule_toks rules ++ [rend]) ++ k) ln) = (d_grules prio rules, Ok (amk k ln')).
+Proof.
+  intros rules rend prio k ln fuel Hfu Hok Hsh Hend Hin.
+  destruct (toks_nonempty rules rend) as (t0 & l & E). rewrite E in *.
+  exact (read_rules_fwd_hd o rules rend prio k ln fuel t0 l t0 Hfu E eq_refl Hok Hsh Hend Hin).
+Qed.
+
+Lemma read_rules_fwd (o : opts) (rules : list grule) (rend : gnum) (prio : Z) (k : list Z) (ln : Z) :
+  gnums_ok (flat_map rule_toks rules ++ [rend]) k = true -> forallb grule_shape rules = true -> nval rend = 0 ->
+  forallb (grule_in (claspExt o)) rules = true ->
+  exists ln', read_rules (fuel_of (amk (r_gnums (flat_map rule_toks rules ++ [rend]) ++ k) ln)) o prio
+                         (amk (r_gnums (flat_map rule_toks rules ++ [rend]) ++ k) ln) = (d_grules prio rules, Ok (amk k ln')).
+Proof.
+  intros Hok Hsh Hend Hin. apply read_rules_fwd_gen; try assumption.
+  pose proof (fuel_tok _ k ln Hok) as Hf. rewrite app_length in Hf. cbn [length] in Hf.
+  pose proof (len_rule_toks rules). lia.
 Qed.
